@@ -63,7 +63,9 @@ class DensityMatrixEvolution(MatrixData, BasisManaged, Saveable):
 
         ti, dt = self.TimeAxis.locate(time)
 
-        return DensityMatrix(data=self.data[ti, :, :])
+        # the state handed out owns its data: it changes basis on its own and
+        # writing into it does not change the evolution
+        return DensityMatrix(data=self.data[ti, :, :].copy())
 
 
     def transform(self, SS, inv=None):
@@ -318,5 +320,7 @@ class ReducedDensityMatrixEvolution(DensityMatrixEvolution):
 
         ti, dt = self.TimeAxis.locate(time)
 
-        return ReducedDensityMatrix(data=self.data[ti, :, :])
+        # the state handed out owns its data: it changes basis on its own and
+        # writing into it does not change the evolution
+        return ReducedDensityMatrix(data=self.data[ti, :, :].copy())
 
